@@ -4,8 +4,10 @@
      C06.writer : the bytes the library exported = the bytes the reference writer produces from the same additions
      C06.reader : for every key of the trace, the reference reader, given only the exported bytes, = the library's answer
      C06.hex    : the hex form carries the same cells and a big-endian footer
+     C06.c_header : the C header (read back the way a compiler would: declarations + initialiser list) declares the geometry,
+                    the count and the rate of the structure and an array that is exactly the hex form
    A trace is [id, kind, m, k, w, est, rate4, mode, bs, ms, cap, fb, qmax, keys, ev]; an event is
-   [op, k (key index), a (amount / force flag), bytes, hex, ans].  Every trace gets a verdict.           *)
+   [op, k (key index), a (amount / force flag), bytes, hex, ans, hdr]  (hdr.on = 0: no header taken at this step).  Every trace gets a verdict.           *)
 EXTENDS Layout, TLC, Json
 
 Traces == JsonDeserialize("traces.json")
@@ -118,6 +120,15 @@ HexOK(s, e) ==
   ELSE IF tr.kind = "cbloom" THEN e.hex = Concat([i \in 1..Len(s.cells) |-> LE(s.cells[i], 4)], 1) \o HexBloomFooter(tr.est, s.n, tr.rate4)
   ELSE TRUE
 
+HexRef(s) ==
+  LET tr == T IN
+  IF tr.kind = "bloom" THEN BitBytes(s.bits, tr.m) \o HexBloomFooter(tr.est, s.n, tr.rate4)
+  ELSE Concat([i \in 1..Len(s.cells) |-> LE(s.cells[i], 4)], 1) \o HexBloomFooter(tr.est, s.n, tr.rate4)
+HeaderOK(s, e) ==
+  LET tr == T  h == e.hdr IN
+  h.on = 0 \/ tr.kind \notin {"bloom", "cbloom"}
+  \/ (h.ok = 1 /\ h.est = tr.est /\ h.n = s.n /\ h.m = tr.m /\ h.k = tr.k /\ h.rate4 = tr.rate4 /\ h.data = HexRef(s))
+
 ReaderOK(e) ==
   LET tr == T IN
   IF tr.kind = "bloom" THEN \A i \in 1..Len(tr.keys) : (IF ReadBloom(e.bytes, tr.keys[i], tr.m, tr.k) THEN 1 ELSE 0) = e.ans[i]
@@ -134,6 +145,7 @@ Step == /\ tid <= NT /\ l <= Len(T.ev)
            /\ fails' = fails \cup (IF Encode(s2) # e.bytes THEN {<<"C06.writer", l>>} ELSE {})
                              \cup (IF ~ReaderOK(e) THEN {<<"C06.reader", l>>} ELSE {})
                              \cup (IF ~HexOK(s2, e) THEN {<<"C06.hex", l>>} ELSE {})
+                             \cup (IF ~HeaderOK(s2, e) THEN {<<"C06.c_header", l>>} ELSE {})
         /\ l' = l + 1 /\ UNCHANGED <<tid, ptab>>
 
 NextTrace == /\ tid <= NT /\ l > Len(T.ev)
